@@ -9,7 +9,9 @@ PROP = "C01"
 INPUTS = [{}, {"a": 1}, {"a": {"b": [1, 2]}, "b": "s", "items": [1, {"a": 1}]}, {"a": 0, "items": []}, [1, 2], 5, None, {"Error": "x"}, {"a": {"b": []}, "keep": 1}]
 T_OUT = [["ok", {"r": 1}], ["ok", 7], ["ok", [1]], ["ok", {"Error": "data", "x": 1}], ["err", "E1", "boom"],
          # by-attempt sequences (the worker counts attempts per payload): fail, fail with another error, then succeed
-         [["err", "E1", "b1"], ["err", "E2", "b2"], ["ok", {"ok": 3}]], [["err", "E2", "b2"], ["err", "E2", "b2"], ["ok", 4]]]
+         [["err", "E1", "b1"], ["err", "E2", "b2"], ["ok", {"ok": 3}]], [["err", "E2", "b2"], ["err", "E2", "b2"], ["ok", 4]],
+         # fail once, then succeed: a single retry suffices - for every retried state of a chain (each sees its own payload first)
+         [["err", "E1", "b1"], ["ok", {"ok": 2}]]]
 
 def fa(f):
     return "arn:aws:rpcmessage:local::function:" + f
@@ -38,6 +40,8 @@ def menu():
     m["p_emptyparams"] = {"Type": "Pass", "Parameters": {}, "ResultPath": "$.p"}
     m["t_emptysel"] = {"Type": "Task", "Resource": fa("f"), "Parameters": {}, "ResultSelector": {}, "ResultPath": "$.r"}
     m["t_plain"] = {"Type": "Task", "Resource": fa("f")}
+    # a Task with a Retrier of its own, top level (its retry bookkeeping must not reach the state after it)
+    m["t_retry"] = {"Type": "Task", "Resource": fa("f"), "Retry": [{"ErrorEquals": ["States.ALL"], "IntervalSeconds": 1, "MaxAttempts": 1}]}
     m["t_params"] = {"Type": "Task", "Resource": fa("f"), "Parameters": {"q.$": "$.a"}}
     m["t_sel"] = {"Type": "Task", "Resource": fa("f"), "ResultSelector": {"v.$": "$"}, "ResultPath": "$.t", "OutputPath": "$.t"}
     m["t_catch"] = {"Type": "Task", "Resource": fa("f"), "Catch": [{"ErrorEquals": ["States.ALL"], "Next": "@next", "ResultPath": "$.err"}]}
